@@ -20,8 +20,11 @@ pub mod c10;
 pub mod c11;
 pub mod c12;
 pub mod c13;
+pub mod c14;
 pub mod c17;
 pub mod c18;
+pub mod c19;
+pub mod c20;
 
 #[derive(Clone, Copy, Debug, PartialEq, Eq)]
 pub enum Tier {
@@ -69,7 +72,7 @@ pub trait Prop: Sync + Send {
 }
 
 pub fn all() -> Vec<&'static dyn Prop> {
-    vec![&c01::C01, &c02::C02, &c03::C03, &c09::C09, &c15::C15, &c04::C04, &c05::C05, &c06::C06, &c07::C07, &c08::C08, &c10::C10, &c11::C11, &c12::C12, &c13::C13, &c17::C17, &c18::C18]
+    vec![&c01::C01, &c02::C02, &c03::C03, &c09::C09, &c15::C15, &c04::C04, &c05::C05, &c06::C06, &c07::C07, &c08::C08, &c10::C10, &c11::C11, &c12::C12, &c13::C13, &c14::C14, &c17::C17, &c18::C18, &c19::C19, &c20::C20]
 }
 
 pub fn by_id(id: &str) -> Option<&'static dyn Prop> {
